@@ -947,6 +947,145 @@ def run_flips(job):
     return snap
 
 
+# ---------------------------------------------------------------------------
+# the string presets behind the front end's own caches (array_contract_path cache=True, array_contract_expression):
+# same inputs/output, explicit size_dicts that are equal as mappings but ordered differently, or permutations of the
+# value sequence over the keys
+def _nested_of_path(path, n):
+    items = list(range(n))
+    for step in path:
+        step = sorted(step, reverse=True)
+        picked = [items.pop(i) for i in step][::-1]
+        new = picked[0]
+        for x in picked[1:]:
+            new = (new, x)
+        items.append(new)
+    (root,) = items
+    return root
+
+
+def path_flops(path, q):
+    from vlib import oracle as _oracle
+    inputs, output, size_dict = POOL[q]
+    return _oracle.spec_costs(list(inputs), output, size_dict, _nested_of_path(path, len(inputs)))["flops"]
+
+
+def best_flops(q):
+    from vlib import gen as _gen, oracle as _oracle
+    inputs, output, size_dict = POOL[q]
+    n = len(inputs)
+    best = None
+    for ssa in _gen.all_partitions_paths(n):
+        nodes = {i: i for i in range(n)}
+        nxt = n
+        for i, j in ssa:
+            nodes[nxt] = (nodes.pop(i), nodes.pop(j))
+            nxt += 1
+        (root,) = nodes.values()
+        f = _oracle.spec_costs(list(inputs), output, size_dict, root)["flops"]
+        best = f if best is None else min(best, f)
+    return best
+
+
+OPTIMAL_PRESETS = ("optimal", "dp", "dynamic-programming", "optimal-outer")
+
+
+def ask_front(preset, api, q):
+    inputs, output, size_dict = POOL[q]
+    if api == "cpath":
+        return "path", ctg.array_contract_path(inputs, output, size_dict, optimize=preset, canonicalize=False)
+    if api == "findpath":
+        from cotengra.interface import find_path
+        return "path", find_path(inputs, output, size_dict, optimize=preset)
+    if api == "expr":
+        return "expr", ctg.array_contract_expression(inputs, output, size_dict, optimize=preset, canonicalize=False)
+    return "tree", ctg.array_contract_tree(inputs, output, size_dict, optimize=preset, canonicalize=False)
+
+
+def judge_front(preset, kind, val, q, seen_expr, seen_path, lock):
+    """returns None or a description; q is judged against ITS OWN size mapping"""
+    inputs, output, size_dict = POOL[q]
+    n = len(inputs)
+    if kind == "tree":
+        msg = judge_tree(val, q)
+        if msg:
+            return msg
+        val = val.get_path()
+        kind = "path-of-tree"
+    if kind == "expr":
+        with lock:
+            for q2, e2 in seen_expr:
+                if e2 is val and POOL[q2][2] != size_dict:
+                    return ("the expression object built for query %d (sizes %r) was handed out for this query "
+                            "(sizes %r)" % (q2, POOL[q2][2], size_dict))
+            seen_expr.append((q, val))
+        return None
+    if not valid_path(val, n):
+        return "path %r is not a path of the query's %d tensors" % (val, n)
+    cost = path_flops(val, q)
+    if preset in OPTIMAL_PRESETS and n <= 5:
+        want = best_flops(q)
+        if cost != want:
+            return ("preset %r returned path %r costing %d flops on the query's own sizes %r; the brute-force optimum "
+                    "is %d" % (preset, val, cost, size_dict, want))
+    # the deterministic presets: the answer must be the one a fresh, uncached search gives for THIS query
+    if kind == "path":
+        fresh = ctg.array_contract_path(inputs, output, size_dict, optimize=preset, canonicalize=False, cache=False)
+        if tuple(map(tuple, fresh)) != tuple(map(tuple, val)):
+            fc = path_flops(fresh, q)
+            if fc != cost:
+                return ("preset %r returned path %r (%d flops on the query's own sizes %r) but an uncached search for "
+                        "this query gives %r (%d flops)" % (preset, val, cost, size_dict, fresh, fc))
+    # equal mappings (whatever their key order) must get equal-cost answers
+    with lock:
+        for q2, c2 in seen_path:
+            if POOL[q2][2] == size_dict and c2 != cost:
+                return "two queries with equal size mappings got answers of different cost (%d vs %d)" % (c2, cost)
+        seen_path.append((q, cost))
+    return None
+
+
+def run_sizes(job):
+    load_pool(job)
+    preset = job["target"].split(":", 1)[1]
+    programs = job["programs"]
+    bad = []
+    lock = threading.Lock()
+    seen_expr, seen_path = [], []
+
+    def body(idx):
+        for step, (q, api) in enumerate(programs[idx]):
+            try:
+                kind, val = ask_front(preset, api, q)
+                msg = judge_front(preset, kind, val, q, seen_expr, seen_path, lock)
+            except Exception as e:
+                import traceback
+                with lock:
+                    bad.append({"thread": idx, "step": step, "query": q, "api": api, "raised": repr(e),
+                                "tb": traceback.format_exc()[-600:]})
+                continue
+            if msg:
+                with lock:
+                    bad.append({"thread": idx, "step": step, "query": q, "api": api, "what": msg,
+                                "size_dict_in_key_order": list(POOL[q][2].items())})
+    if len(programs) == 1:
+        body(0)
+        alive = []
+    else:
+        old = sys.getswitchinterval()
+        sys.setswitchinterval(1e-6)
+        try:
+            ths = [threading.Thread(target=body, args=(i,), daemon=True) for i in range(len(programs))]
+            for t in ths:
+                t.start()
+            for t in ths:
+                t.join(job.get("timeout", 100))
+            alive = [i for i, t in enumerate(ths) if t.is_alive()]
+        finally:
+            sys.setswitchinterval(old)
+    return {"bad": bad, "alive": alive}
+
+
 def main():
     data = json.load(sys.stdin)
     patch_needed = any(j["kind"] in ("forced", "nested_forced", "flips") for j in data["jobs"])
@@ -959,6 +1098,8 @@ def main():
                 out.append(run_forced(job))
             elif job["kind"] == "seq":
                 out.append(run_seq(job))
+            elif job["kind"] == "sizes":
+                out.append(run_sizes(job))
             elif job["kind"] == "flips":
                 out.append(run_flips(job))
             elif job["kind"] == "nested_forced":
